@@ -417,6 +417,82 @@ theorem late_forget_counterexample : ¬ RetriesUntilAnswered lateErrorCfg := by
   rw [hp] at hent
   simp [dget] at hent
 
+/-! ### sends that raise
+
+The driver's `send_packet` and the subscribers of `packet_sent` may raise out of the critical section (`LEv.sendRaise`,
+`LEv.runRaise`; `LState` adds `_send_lock` to the state, a step that needs a lock that is held for ever is `blocked`). -/
+
+/-- Gen obligation: the lock is released in a `finally`, i.e. on every exit of the critical section -/
+theorem gen_lock_released : srcCfg.releasesOnRaise = true := by decide
+
+/-- For every history, with any number of raising sends and raising timer callbacks anywhere in it: the send lock is never left
+held, and the retry state is exactly the one of the same history with those steps returning normally.  So every theorem above
+(`retries_until_answered`, `no_retry_after_answer`, `no_cross_session_tx`, …) holds for such histories as well. -/
+theorem raising_sends_transparent (evs : List LEv) :
+    (lrun srcCfg linit evs).locked = false ∧ (lrun srcCfg linit evs).st = run srcCfg init (evs.map LEv.erase) :=
+  lrun_transparent gen_lock_released linit rfl evs
+
+/-- No deadlock of the timers: after any such history a due timer's thread can always take its steps (it never waits for the
+send lock for ever), whether or not its own retransmission raises. -/
+theorem timers_never_block (evs : List LEv) (j : Nat) (t : Timer) :
+    let ls := lrun srcCfg linit evs
+    ls.st.timers[j]? = some t →
+    (t.st = .armed → t.deadline ≤ ls.st.now → ∃ ls', lstep srcCfg ls (.ev (.expire j)) = .ok ls') ∧
+    (t.st = .expired → (∃ ls', lstep srcCfg ls (.ev (.run j)) = .ok ls') ∧ (∃ ls', lstep srcCfg ls (.runRaise j) = .ok ls')) := by
+  intro ls ht
+  have hl : ls.locked = false := (raising_sends_transparent evs).1
+  have hc := src_repaired
+  refine ⟨fun ha hd => ?_, fun he => ?_⟩
+  · unfold lstep
+    simp only [LEv.erase, expire_eq srcCfg ht ha hd, hl, Bool.false_and, Bool.false_eq_true, if_false, LEv.raises]
+    exact ⟨_, rfl⟩
+  · have hstep : ∃ s', step srcCfg ls.st (.run j) = .ok s' := by
+      simp only [step, ht, he, if_true, sendCore_retry hc]; exact ⟨_, rfl⟩
+    obtain ⟨s', hs'⟩ := hstep
+    constructor
+    · unfold lstep
+      simp only [LEv.erase, hs', hl, Bool.false_and, Bool.false_eq_true, if_false, LEv.raises]
+      exact ⟨_, rfl⟩
+    · unfold lstep
+      simp only [LEv.erase, hs', hl, Bool.false_and, Bool.false_eq_true, if_false, LEv.raises, Bool.true_and]
+      split <;> exact ⟨_, rfl⟩
+
+/-- `retries_until_answered` for histories with raising sends - the request's own first transmission may be one of them. -/
+theorem retries_until_answered_with_raising_sends (evs₁ : List LEv) (l : Link) (pk : Pk) (ex : Pattern) (T : Nat)
+    (first : LEv) (hfirst : first = .ev (.send pk ex T) ∨ first = .sendRaise pk ex T) (evs₂ : List LEv) :
+    let ls := lrun srcCfg linit evs₁
+    ls.st.link = some l → l.needsResending = true → ex ≠ [] → pk.size ≤ Gen.C10.maxDataSize →
+    let ls1 := lstepT srcCfg ls first
+    ls1.locked = false ∧
+    (QuietRun srcCfg ls1.st (pk.header :: ex) (evs₂.map LEv.erase) →
+      Outstanding (lrun srcCfg ls1 evs₂).st ls.st.nextReq pk (pk.header :: ex) T) := by
+  intro ls hl hnr hex hsz ls1
+  obtain ⟨h0, h1⟩ := raising_sends_transparent evs₁
+  obtain ⟨h2, h3⟩ := lstepT_unlocked gen_lock_released ls first h0
+  have herase : first.erase = .send pk ex T := by rcases hfirst with rfl | rfl <;> rfl
+  obtain ⟨_, h5⟩ := lrun_transparent gen_lock_released ls1 h2 evs₂
+  refine ⟨h2, fun hq => ?_⟩
+  have hmain := (retries_until_answered (evs₁.map LEv.erase) l pk ex T (evs₂.map LEv.erase)
+    (by rw [← h1]; exact hl) hnr hex hsz).2
+  have e1 : ls1.st = stepT srcCfg (run srcCfg init (evs₁.map LEv.erase)) (.send pk ex T) := by
+    show (lstepT srcCfg ls first).st = _
+    rw [h3, herase, h1]
+  rw [h5, e1, show ls.st = run srcCfg init (evs₁.map LEv.erase) from h1]
+  rw [e1] at hq
+  exact hmain hq
+
+/-- The `finally` is essential: with the release only on the normal exit, one raising send (of any packet) leaves the lock held;
+the timer of the still unanswered request then blocks for ever and nothing is transmitted any more although the link stays open. -/
+theorem flat_send_lock_counterexample :
+    let ls := lrun flatSendCfg linit [.ev (.openLink true), .ev (.send ⟨1, 93, 2⟩ [3, 7] 200), .sendRaise ⟨2, 60, 14⟩ [] 200,
+      .ev (.advance 200), .ev (.expire 0)]
+    ls.locked = true ∧ ls.st.link.isSome = true ∧ ls.st.patterns = [([93, 3, 7], 0)] ∧
+    (match lstep flatSendCfg ls (.ev (.run 0)) with | .error .blocked => true | _ => false) = true ∧
+    ∀ evs, (lrun flatSendCfg ls evs).st.log = ls.st.log := by
+  intro ls
+  have h1 : ls.locked = true := by decide
+  exact ⟨h1, by decide, by decide, by decide, fun evs => (locked_forever flatSendCfg ls h1 evs).2⟩
+
 /-- If every link that is ever opened guarantees delivery, no retry timer is ever created. -/
 theorem reliable_links_no_timers (evs : List Ev) (h : ∀ e ∈ evs, ReliableOnly e) :
     (run srcCfg init evs).timers = [] :=
